@@ -201,6 +201,8 @@ def c11(ck, F, tier):
     ck.rule("PRE", "assumed entry conditions of private functions hold at all call sites", floor=4)
     guarded(ck, pn.panic_rule, F, "PANIC", pn.C11_ENTRIES, pn.C11_STOPS, pn.C11_EXCEPTIONS)
     guarded(ck, pn.pre_rule, F)
+    ck.rule("LEN-PAIR", "every resize of workbook.worksheets reaches a rebuild of parsed_formulas before returning", floor=5)
+    guarded(ck, pn.len_pair, F)
 
 
 def c25(ck, F, tier):
